@@ -14,10 +14,11 @@ func init() {
 	register(&Prop{
 		ID:          "C03",
 		Title:       "A subscriber's folded view converges to the store's state",
-		Explanation: "R03.1 in both onUpdate functions the bus listener is registered while the lock that covered the snapshot is still held (no commit can fall between snapshot and registration). R03.2 Value.Pull, Collection.Pull and Collection.PullID reach Bus.Listen synchronously on every path before they return. R03.3 from the commit of a write to the Bus.Send that publishes it a lock that serialises writers is held continuously (holds for Collection.Delete; Value.set and Collection.Update publish after releasing the lock: recorded known findings F-3a/b). R03.4 the published change carries GetAndUpdate's new (and old) value and the id the item was saved under. R03.5 no seed event can be sent after the update loop started. R03.6 the listener registry is accessed under its lock and delivery iterates a copy. R03.7 PullID forwards exactly the events of its (intercepted) id and ends on REMOVE. R03.9/R03.10 every committed write publishes exactly one event and queued events merge by the documented table. R03.11 the event object shared by all subscribers is never written by the forwarding code. Does NOT decide convergence itself, interleavings inside Bus.Send across listeners, or consumer pacing.",
+		Explanation: "R03.1 in both onUpdate functions the bus listener is registered while the lock that covered the snapshot is still held (no commit can fall between snapshot and registration). R03.2 Value.Pull, Collection.Pull and Collection.PullID reach Bus.Listen synchronously on every path before they return. R03.3 from the commit of a write to the Bus.Send that publishes it a lock that serialises writers is held continuously (holds for Collection.Delete; Value.set and Collection.Update publish after releasing the lock: recorded known findings F-3a/b). R03.4 the published change carries GetAndUpdate's new (and old) value and the id the item was saved under. R03.5 no seed event can be sent after the update loop started. R03.6 the listener registry is accessed under its lock and delivery iterates a copy. R03.7 PullID forwards exactly the events of its (intercepted) id and ends on REMOVE. R03.9/R03.10 every committed write publishes exactly one event and queued events merge by the documented table. R03.11 the event object shared by all subscribers is never written by the forwarding code. R03.7 also: the REMOVE test of PullID is reached for events of the requested id only, so only the item's own removal ends the stream. Does NOT decide convergence itself, interleavings inside Bus.Send across listeners, or consumer pacing.",
 		Assumptions: []string{"Bus.Send delivers synchronously to listeners registered before it copied the registry"},
 		Run:         runC03,
 		Controls: []Control{
+			{Name: "pullid-remove-test-before-id-test", File: "pkg/resource/collection.go", Old: "\t\t\tif change.Id != id {\n\t\t\t\tcontinue\n\t\t\t}\n\n\t\t\tif change.ChangeType == types.ChangeType_REMOVE {\n\t\t\t\treturn\n\t\t\t}\n", New: "\t\t\tif change.ChangeType == types.ChangeType_REMOVE {\n\t\t\t\treturn\n\t\t\t}\n\n\t\t\tif change.Id != id {\n\t\t\t\tcontinue\n\t\t\t}\n", Expect: "R03.7"},
 			{Name: "pullid-drops-its-options", File: "pkg/resource/collection.go", Old: "\tchanges := c.Pull(ctx, opts...)\n", New: "\tchanges := c.Pull(ctx)\n", Expect: "R03.14"},
 			{Name: "send-results-read-the-other-way-round", File: "internal/minibus/bus.go", Old: "\t\tok, active := l.send(ctx, event)\n", New: "\t\tactive, ok := l.send(ctx, event)\n", Expect: "R03.12"},
 			{Name: "unlock-before-listen", File: "pkg/resource/value.go", Old: "\t\tr.mu.RLock()\n\t\tdefer r.mu.RUnlock()\n\t\tvalue = r.value\n\t\tchangeTime = r.changeTime\n", New: "\t\tr.mu.RLock()\n\t\tvalue = r.value\n\t\tchangeTime = r.changeTime\n\t\tr.mu.RUnlock()\n", Expect: "R03.1"},
@@ -507,6 +508,34 @@ func r037as(c *an.Ctx, rule, seedRule string) {
 		if len(sends) == 0 {
 			c.Bad(rule, name+"|forwards", f.Pos(), "PullID never forwards an event")
 		}
+		// an edge taken only when the event's id is the requested (intercepted) one
+		isIDEdge := func(e an.CondEdge) bool {
+			bo, ok := e.If.Cond.(*ssa.BinOp)
+			if !ok {
+				return false
+			}
+			_, _, fx, okx := an.FieldOf(bo.X)
+			_, _, fy, oky := an.FieldOf(bo.Y)
+			if !((okx && fx == "Id") || (oky && fy == "Id")) {
+				return false
+			}
+			// other operand is the id variable of PullID
+			other := bo.Y
+			if oky && fy == "Id" {
+				other = bo.X
+			}
+			isID := false
+			for _, src := range an.Sources(other) {
+				if p, ok := src.(*ssa.Parameter); ok && p.Parent() == fn && p.Name() == fn.Params[2].Name() {
+					isID = true
+				}
+				// intercepted id
+				if call, ok := src.(*ssa.Call); ok && an.CalleeName(call) == "dynamic" {
+					isID = true
+				}
+			}
+			return isID && ((bo.Op == token.NEQ && !e.Branch) || (bo.Op == token.EQL && e.Branch))
+		}
 		for i, s := range sends {
 			// guarded by change.Id == id
 			idGuard, remGuard := false, false
@@ -516,30 +545,21 @@ func r037as(c *an.Ctx, rule, seedRule string) {
 					continue
 				}
 				_, _, fx, okx := an.FieldOf(bo.X)
-				_, _, fy, oky := an.FieldOf(bo.Y)
-				if (okx && fx == "Id") || (oky && fy == "Id") {
-					// other operand is the id variable of PullID
-					other := bo.Y
-					if oky && fy == "Id" {
-						other = bo.X
-					}
-					isID := false
-					for _, src := range an.Sources(other) {
-						if p, ok := src.(*ssa.Parameter); ok && p.Parent() == fn && p.Name() == fn.Params[2].Name() {
-							isID = true
-						}
-						// intercepted id
-						if call, ok := src.(*ssa.Call); ok && an.CalleeName(call) == "dynamic" {
-							isID = true
-						}
-					}
-					if isID && ((bo.Op == token.NEQ && !e.Branch) || (bo.Op == token.EQL && e.Branch)) {
-						idGuard = true
-					}
+				if isIDEdge(e) {
+					idGuard = true
 				}
 				if okx && fx == "ChangeType" {
 					if k, isC := an.ConstInt(bo.Y); isC && k == rem && ((bo.Op == token.EQL && !e.Branch) || (bo.Op == token.NEQ && e.Branch)) {
 						remGuard = true
+						// only the removal of THIS item ends the stream: the test is reached for events of the id only
+						ofID := false
+						for _, e2 := range an.GuardingEdges(e.If) {
+							if isIDEdge(e2) {
+								ofID = true
+							}
+						}
+						c.Check(ofID, rule, name+"|only the removal of the requested item ends the stream", e.If.Pos(), "the REMOVE test is reached for events of the requested id only",
+							"the REMOVE test comes before the id comparison: deleting any other item of the collection ends the single-item subscription, and later writes to the subscribed item are never delivered")
 						// the REMOVE edge must end the stream: cannot reach another receive/send
 						other := an.CondEdge{If: e.If, Branch: !e.Branch}
 						t, _ := an.PathQuery{Target: func(in ssa.Instruction) bool {
